@@ -341,6 +341,12 @@ func lookup(ps *pathState, instr *ssa.Lookup, x, idx value) value {
 // numeric datatypes and strings.  Both operands must have identical
 // dynamic type.
 func binop(ps *pathState, op token.Token, t types.Type, x, y value) value {
+	if _, ok := x.(ffElem); ok {
+		return ps.ffBinop(op, x, y)
+	}
+	if _, ok := y.(ffElem); ok {
+		return ps.ffBinop(op, x, y)
+	}
 	if isSym(x) || isSym(y) {
 		return ps.symBinop(op, x, y)
 	}
@@ -1211,6 +1217,20 @@ func conv(ps *pathState, t_dst, t_src types.Type, x value) value {
 	ut_src := t_src.Underlying()
 	ut_dst := t_dst.Underlying()
 
+	if ff, ok := x.(ffElem); ok {
+		// the float-text pseudo byte keeps its identity through integer
+		// conversions (byte -> rune -> uint32 -> byte ...); string(rune) gives
+		// the one-element string
+		if bd, ok := ut_dst.(*types.Basic); ok {
+			if bd.Kind() == types.String {
+				return &symstr{e: []value{ff}}
+			}
+			if bd.Info()&types.IsInteger != 0 {
+				return ff
+			}
+		}
+		panic(pathEnd{StUnsupported, "conversion of a float-text pseudo byte to " + t_dst.String()})
+	}
 	if sx, ok := x.(sym); ok {
 		if bd, ok := ut_dst.(*types.Basic); ok {
 			if bd.Kind() == types.String {
